@@ -1649,7 +1649,13 @@ impl IQLEngine {
 
             // Create fresh CodeGenerator for each rule (avoids timely state issues)
             let mut codegen = CodeGenerator::new();
-            codegen.set_max_result_rows(self.max_result_rows);
+            // `max_result_rows` bounds the rows *returned by the query*, i.e. the result of
+            // the last executed rule. Truncating an intermediate relation would change the
+            // meaning of every rule that reads it (missing answers, or wrong answers under
+            // negation), so intermediate rules are evaluated in full.
+            if execution_order.last() == Some(&i) {
+                codegen.set_max_result_rows(self.max_result_rows);
+            }
             // Set per-rule semiring type from boolean specialization
             let semiring = self
                 .semiring_annotations
